@@ -25,6 +25,8 @@ import zzmod_ok
 from zzmod_bad import badname
 """
 
+DB_BROKEN = "from base64 import b64decode\nfrom zzmod_ok import\n"      # unparsable database file
+
 EXC = {n: getattr(builtins, n) for n in
        ["ValueError", "OSError", "KeyError", "AssertionError", "AttributeError", "ImportError", "RuntimeError",
         "TypeError", "ZeroDivisionError", "SyntaxError", "KeyboardInterrupt", "SystemExit", "GeneratorExit",
@@ -148,7 +150,7 @@ def drive(case, scratch):
             f.write("class %s(%s):\n    pass\n" % (be, "Exception" if be == "CustomError" else "BaseException"))
         f.write("raise %s('boom')\nbadname = 1\n" % be)
     with open(os.path.join(scratch, "db.py"), "w") as f:
-        f.write(DB_TEXT)
+        f.write(DB_BROKEN if case.get("db_broken_at_start") else DB_TEXT)
     with open(os.path.join(scratch, "runme.py"), "w") as f:
         f.write(case.get("runfile_text", "zz_r = b64decode('aGk=')\n"))
     sys.path.insert(0, moddir)
@@ -503,13 +505,16 @@ def drive(case, scratch):
         dyn_calls[0] = 0
         del pf_names[:]
         armed.clear()
-        if with_pf and op.get("faults"):
-            # the database cache is warm when a stub is armed (a cold load parses the database files with
-            # PythonBlock, which would put the SParse stub on the database-load path)
+        if with_pf:
+            # what loading the import database does right now (unarmed): an oracle argument of the model - a
+            # broken database file (operation BreakDb) raises here unless an earlier load is still cached; a
+            # successful probe also warms the cache, so that a cold load (which parses the database files with
+            # PythonBlock) does not put the SParse stub on the database-load path
             try:
                 D.ImportDB.get_default(".")
-            except Exception:
-                pass
+                r["natural_db"] = None
+            except BaseException as e:
+                r["natural_db"] = type(e).__name__
         armed.update({f[0]: f[1] for f in op.get("faults", [])})
         armed_k.clear()
         armed_k.update({f[0]: f[2] for f in op.get("faults", []) if len(f) > 2})
@@ -531,6 +536,13 @@ def drive(case, scratch):
                 elif act == "inspect":
                     info = H.ip._ofind(text)
                     r["result"] = bool(info.found if hasattr(info, "found") else info["found"])
+                    g = (lambda k: getattr(info, k, None)) if hasattr(info, "found") else info.get
+                    obj = g("obj")
+                    r["inspect"] = {"namespace": g("namespace"), "ismagic": bool(g("ismagic")), "isalias": bool(g("isalias")),
+                                    "type": type(obj).__name__,
+                                    "repr": (repr(obj)[:80] if isinstance(obj, (int, str, float, tuple, type(None))) or
+                                             type(obj).__name__ in ("builtin_function_or_method", "module", "type") else type(obj).__name__),
+                                    "is_builtin": obj is getattr(builtins, text, UNSET)}
                 elif act == "cglobal":
                     r["matches"] = sorted(H.ip.Completer.global_matches(text))
                 elif act == "cattr":
@@ -561,6 +573,11 @@ def drive(case, scratch):
             for stmt in case.get("pre_imports", {}).get(str(idx), []):
                 exec(stmt, H.ip.user_ns)
             ent["cell"] = do_cell(op)
+        elif op["op"] in ("BreakDb", "RepairDb"):
+            # the user's database file becomes unparsable / is repaired; pyflyby keeps a loaded database cached
+            # until %load_ext / %reload_ext clear the cache
+            with open(os.path.join(scratch, "db.py"), "w") as f:
+                f.write(DB_BROKEN if op["op"] == "BreakDb" else DB_TEXT)
         elif op["op"] == "Initialize":
             # [IPython] app.initialize() -> init_shell(): the shell comes to exist (ipython_config.py / `py` order)
             try:
